@@ -42,7 +42,8 @@ CallOK(e) ==
         /\ acc => \A j, k \in 1..Len(e.forms) :                              \* owned result = borrowed result
                     (j < k /\ ~e.forms[j].panic /\ ~e.forms[k].panic) => SamePr(e.forms[j].res, e.forms[k].res)
 
-CoverageOK(e) == {e.seen[k] : k \in 1..Len(e.seen)} = EntryKeys
+CoverageOK(e) == /\ {e.seen[k] : k \in 1..Len(e.seen)} = EntryKeys
+                 /\ {e.preps[k] : k \in 1..Len(e.preps)} = PrepKeys          \* every size-changing preparation was used
 
 Init == l = 1 /\ ws = EmptyWs /\ TLCSet(1, 0)
 Step == /\ l <= NRec
